@@ -93,7 +93,7 @@ RULE = ("a case = (class, flip_for_ds9, generated object): shape stratum x value
         "cannot hide; symmetric / constant draws are executed but counted trivial")
 BOUNDS = {"quick": "6 classes x 2 flip settings x 48 objects, shapes <= 12x15 plus the 359/360/361-value block-boundary "
                    "shapes, <= 4 HDUs per multi-extension file",
-          "thorough": "6 classes x 2 flip settings x 840 objects, same strata"}
+          "thorough": "6 classes x 2 flip settings x 600 objects, same strata (silent for seeds 0-4 also at 840 objects)"}
 EXHAUSTIVE = {"quick": False, "thorough": False}
 ASSUMPTIONS = ["A2: astropy is trusted to write/read float64 images and header cards; it is also the independent reader of "
                "the raw on-disk orientation",
@@ -108,7 +108,7 @@ QUICK_JOBS = 16
 
 CLASSES = ("Array2D", "Mask2D", "Kernel2D", "Array1D", "Mask1D", "Imaging")
 STATES = ("absent", "absent_overwrite", "nested_abs", "nested_rel", "bare", "present_refused", "present_overwrite")
-PER = {"quick": 48, "thorough": 840}
+PER = {"quick": 48, "thorough": 600}
 WEIGHT = {"Array2D": 1.0, "Mask2D": 0.9, "Kernel2D": 1.1, "Array1D": 0.8, "Mask1D": 0.65, "Imaging": 1.4}
 BATCH = {"quick": 12, "thorough": 60}
 
@@ -146,17 +146,11 @@ def post(merged, inconclusive, tier):
 
 # --------------------------------------------------------------------------------------- helpers
 def _check(ctx, ok, monitor, **witness):
-    """ctx.check + a note naming every monitor that fired (the evidence keeps only the first witnesses)."""
-    if not ok:
-        ctx.note("fired: " + monitor)
     return ctx.check(ok, monitor, **witness)
 
 
 def _guarded(ctx, monitor, fn, *a, **k):
-    ok, value = ctx.guarded(monitor, fn, *a, **k)
-    if not ok:
-        ctx.note("fired: " + monitor)
-    return ok, value
+    return ctx.guarded(monitor, fn, *a, **k)
 
 
 def _np(x):
